@@ -344,10 +344,14 @@ func jpegRun(p *Program, withICC bool) *parserRun {
 	o := jpegOpts(p)
 	if withICC {
 		o.Prune = func(c *BoolVal) bool {
-			// identifier byte mismatch → `continue`: analysed separately
+			// identifier byte mismatch → `continue`: not followed (a non-ICC APP2 segment is simply skipped)
 			k := c.Key()
-			return c.Op == "!=" && strings.HasPrefix(k, "(1*index(.Data(") && !strings.Contains(k, "make#")
+			return c.Op == "!=" && strings.HasPrefix(k, "(1*index(.Data(") && !strings.Contains(k, "make#") && strings.Count(k, "index(") == 1 && !strings.HasSuffix(k, " != 0)")
 		}
+		setD := p.Method("meta", "Data", "SetICCProfileData")
+		setE := p.Method("meta", "Data", "SetICCProfileError")
+		o.TraceCalls = func(f *ssa.Function) bool { return f == setD || f == setE }
+		o.MaxPaths = 40000
 	} else {
 		o.Prune = func(c *BoolVal) bool {
 			k := c.Key()
